@@ -3,7 +3,7 @@ The translated source equals the model: the two result containers of src/datetim
 `FoundDateTimeListRefMut::{new, push, data, count, is_exhaustive, unique, earliest, latest}` and
 `FoundDateTimeList::{push, unique, earliest, latest}` (C17, and the accessor clauses of C06).
 -/
-import TzVerif.Generated.Src
+import TzVerif.SrcBase
 import TzVerif.Model.Find
 
 namespace TzVerif.Proofs.SrcEq
